@@ -3432,7 +3432,13 @@ def run_api_strata(ctx):
                 if _mem(S, e) != 't':
                     return 'element({!r}) = {!r} is not in the set'.format(v, e)
                 # `inp=None` means 'no input' (default element), even where None is a member
-                if isinstance(S, leafcls) and v is not None and not _veq(e, v):
+                if type(S) is odl.IntervalProd:
+                    # a point of a 1-d interval product may be given as a length-1 sequence
+                    same = _veq(np.atleast_1d(np.asarray(e, dtype=float)),
+                                np.atleast_1d(np.asarray(v, dtype=float)))
+                else:
+                    same = _veq(e, v)
+                if isinstance(S, leafcls) and v is not None and not same:
                     return 'element({!r}) = {!r} differs from the member offered'.format(v, e)
                 return True
             seq1d = type(S) is odl.IntervalProd and S.ndim == 1 and isinstance(v, (tuple, list))
